@@ -589,6 +589,62 @@ func hasMergeLookalike(v any) bool {
 				return true
 			}
 		}
+	case map[string]any:
+		for k, e := range t {
+			if k == "<<" || hasMergeLookalike(e) {
+				return true
+			}
+		}
+	case map[string]string:
+		for k, e := range t {
+			if k == "<<" || e == "<<" {
+				return true
+			}
+		}
+	case []string:
+		for _, e := range t {
+			if e == "<<" {
+				return true
+			}
+		}
+	}
+	return false
+}
+
+// hasDegenerateMatrix: a non-empty matrix mapping without (or with a null) setup, or an adjustment
+// without (or with a null) `with` (known finding F15: the YAML emitter writes the nil map as {}).
+func hasDegenerateMatrix(v any) bool {
+	switch t := v.(type) {
+	case []any:
+		for _, e := range t {
+			if hasDegenerateMatrix(e) {
+				return true
+			}
+		}
+	case vl.OMap:
+		if mv, ok := findKV(t, "matrix"); ok {
+			if mm, ok := mv.(vl.OMap); ok && len(mm) > 0 {
+				if sv, has := findKV(mm, "setup"); !has || sv == nil {
+					return true
+				}
+				if av, ok := findKV(mm, "adjustments"); ok {
+					if al, ok := av.([]any); ok {
+						for _, a := range al {
+							if ao, ok := a.(vl.OMap); ok {
+								if wv, has := findKV(ao, "with"); !has || wv == nil {
+									return true
+								}
+							}
+						}
+					}
+				}
+			}
+		}
+		for _, kv := range t {
+			if hasDegenerateMatrix(kv.V) {
+				return true
+			}
+		}
 	}
 	return false
 }
